@@ -1,8 +1,9 @@
 import Driver.Proto
 import PqModel.BloomWriter
+import PqModel.BloomPlace
 
 namespace Driver.Ops.C07
-open Driver PqModel.XxHash PqModel.Bloom PqModel.BloomWriter
+open Driver PqModel.XxHash PqModel.Bloom PqModel.BloomWriter PqModel.BloomPlace
 
 def showHashes (hs : List UInt64) : String := showList (fun h => toString h.toNat) hs
 
@@ -61,8 +62,47 @@ def parseDict? (k : Kind) (s : String) : Option (Option (List Value)) :=
 def pagesOk (k : Kind) (pages : List (List Value)) : Bool :=
   pages.all (fun p => p.all (fun v => v.kindOk k))
 
+/-- placement events: `d<n>` other bytes, `f<rg>.<col>.<len>.<0|1 deferred>`, `x` = writeDeferredBloomFilters -/
+def parseEv? (s : String) : Option Ev :=
+  if s == "x" then some .flush
+  else if s.startsWith "d" then (parseNat? (s.drop 1).toString).map .data
+  else if s.startsWith "f" then
+    match ((s.drop 1).toString.splitOn ".").mapM parseNat? with
+    | some [rg, col, len, d] => if d ≤ 1 then some (.filter rg col len (d == 1)) else none
+    | _ => none
+  else none
+
+def showLoc (t : MetaTab) : Ev → Option String
+  | .filter rg col _ _ =>
+    match t rg col with
+    | some l => some s!"{rg}.{col}.{l.off}.{l.len}"
+    | none => some s!"{rg}.{col}.none"
+  | _ => none
+
 def handle (toks : List String) : Option String :=
   match toks with
+  -- bloom.header <numBytes> <gzip 0|1> -> thrift bytes of the BloomFilterHeader, length of the encrypted section
+  | ["bloom.header", nb, gz] => some <|
+    match parseNat? nb with
+    | some nb =>
+      if (gz != "0" && gz != "1") || nb ≥ 2147483648 then "bad-op"
+      else s!"ok {toHex (headerBytes nb (gz == "1"))} {encSectionLength nb (gz == "1")}"
+    | none => "bad-op"
+  -- bloom.presize <bits> <exact 0|1> <srcValues> <numRows> <maxRows> <repeated 0|1> -> len(c.filter) after configureBloomFilters
+  | ["bloom.presize", bits, ex, sv, nr, mr, rep] => some <|
+    match parseNat? bits, parseNat? sv, parseNat? nr, parseNat? mr with
+    | some bits, some sv, some nr, some mr =>
+      if (ex != "0" && ex != "1") || (rep != "0" && rep != "1") then "bad-op"
+      else s!"ok {presize bits (ex == "1") sv nr mr (rep == "1")}"
+    | _, _, _, _ => "bad-op"
+  -- bloom.place <events> -> `<rg>.<col>.<offset>.<length>` per filter event (MIRROR of the filter loop of
+  --   writeRowGroup + writeDeferredBloomFilters, offsets only)
+  | ["bloom.place", evs] => some <|
+    match (evs.splitOn ",").mapM parseEv? with
+    | some evs =>
+      let s := PqModel.BloomPlace.run evs
+      s!"ok {showList id (evs.filterMap (showLoc s.tab))} {s.offset}"
+    | none => "bad-op"
   | ["xxh64", hex] => some <|
     match parseHex? hex with
     | some bs => s!"ok {(xxh64 bs).toNat}"
